@@ -192,7 +192,12 @@ func runLegacy(w *bufio.Writer, s *cfsim.Script, twin *cfsim.Twin, n int, p plan
 	case strings.HasPrefix(p.name, "v"):
 		var pl cfsim.Plan
 		if pl, err = cfsim.ParsePlan(p.name); err == nil {
-			res, err = cfsim.RunFaultPlan(s, pl, twin)
+			if len(pl) == 1 {
+				res, err = cfsim.RunFaultPlanTracked(s, pl, twin)
+			} else if res, err = cfsim.RunFaultPlan(s, pl, twin); err == nil {
+				reportAttributed(w, s, twin, n, id, p.name, pl, res, true)
+				return
+			}
 		}
 	case strings.HasPrefix(p.name, "j") && strings.Contains(p.name, "+"):
 		f := strings.SplitN(p.name[1:], "+", 2)
